@@ -15,7 +15,7 @@ import (
 var modelKeys = []string{
 	"(*protocol.*).*Iterator", "(*protocol.*Iterator).HasNext", "(*protocol.*Iterator).Next*",
 	"(primitives.*).Equal", "(primitives.*).String", "(primitives.*).KeyForMap",
-	"bytes.Equal", "errors.New", "errors.Errorf", "fmt.Errorf", "errors.Wrap", "errors.Wrapf",
+	"bytes.Equal", "errors.New", "errors.Errorf", "fmt.Errorf", "errors.Wrap", "errors.Wrapf", "errors.Cause", "errors.Unwrap", "errors.WithStack", "errors.WithMessage", "errors.Is",
 	"fmt.Sprintf", "fmt.Sprint", "iface:error.Error", "strings.Join",
 	"iface:context.Context.Err", "iface:context.Context.Done", "context.WithCancel", "context.WithTimeout", "context.WithDeadline", "context.WithoutCancel", "context.WithValue", "context.Background", "context.TODO",
 	"sort.Slice", "math.Floor", "math.IsNaN", "math.IsInf", "math.Pow", "math.Ceil", "math.Trunc", "math.Round", "math.Abs", "math.Sqrt", "math.Max", "math.Min", "math.Log2", "math.Exp2", "math.Ldexp", "time.AfterFunc", "(*time.Timer).Stop", "(time.Duration).Nanoseconds",
@@ -193,6 +193,19 @@ func (f *Frame) modelCallFull(key string, sig *types.Signature, vals []Val, args
 		c := vc.fresh("wrapped", SIface)
 		vc.assume(eq(eq(sx("i_typ", c), "0"), eq(sx("i_typ", e.t), "0")))
 		return Val{c, SIface, resT(0)}, true
+	case "errors.Cause", "errors.WithStack", "errors.WithMessage":
+		// an error derived from another one: nil exactly when the argument is nil, otherwise some error value
+		vc.used["A-LOG"] = true
+		e := vals[0]
+		c := vc.fresh("cause", SIface)
+		vc.assume(eq(eq(sx("i_typ", c), "0"), eq(sx("i_typ", e.t), "0")))
+		return Val{c, SIface, resT(0)}, true
+	case "errors.Unwrap":
+		vc.used["A-LOG"] = true
+		return Val{vc.fresh("unwrapped", SIface), SIface, resT(0)}, true
+	case "errors.Is":
+		vc.used["A-LOG"] = true
+		return vc.freshVal("is", types.Typ[types.Bool]), true
 	case "fmt.Sprintf", "fmt.Sprint", "iface:error.Error", "strings.Join":
 		vc.used["A-LOG"] = true
 		return vc.freshVal("str", types.Typ[types.String]), true
